@@ -24,6 +24,7 @@ import RTV.Drv.DtExtract
 import RTV.Drv.DtExtract2
 import RTV.Drv.CultureCfg
 import RTV.Drv.ZhDateTime
+import RTV.Drv.ZhTimePeriod
 import RTV.Drv.DateParser
 import RTV.Drv.NumExtract
 import RTV.Drv.NumBig
@@ -56,6 +57,7 @@ def dispatch (line : String) : String :=
       <|> dispatchDtExtract2 op args
       <|> dispatchCultureCfg op args
       <|> dispatchZhDateTime op args
+      <|> dispatchZhTimePeriod op args
       <|> dispatchDateParser op args
       <|> dispatchDtRes op args
       <|> dispatchNum op args
